@@ -102,7 +102,7 @@ int main(int argc, char **argv) {
     if (ok) {
         HistWeights w;
         w.discover = 10; w.reset = 3; w.shell = 6; w.hello = 1; w.probe = 3; w.emit = 2; w.query = 2; w.qlt = 2; w.otherif = 2; w.repeat = 1;
-        ok = run_cases(a, ev, "c05-histories", a.n(40000, 600000), 100, hg::hist_case(w, 5, 60), run);
+        ok = run_cases(a, ev, "c05-histories", a.n(80000, 800000), 100, hg::hist_case(w, 5, 60), run);
     }
     ev.write(a.out);
     return ok ? 0 : 1;
